@@ -457,6 +457,11 @@ func (s *controlledSelector) HandleSuccessResponse(
 		case selectedPair != pair:
 			s.log.Tracef("Ignore nominate new pair %s, already nominated pair %s", pair, selectedPair)
 		}
+
+		// The deferred nomination has been acted upon: a later success response on this pair
+		// (keepalive, retransmitted check) must not replay it.
+		pair.nominateOnBindingSuccess = false
+		pair.deferredNominationValue = nil
 	}
 
 	pair.UpdateRoundTripTime(rtt)
